@@ -113,7 +113,7 @@ class IterObj:
             yield val
 
 
-def build_item(log, it):
+def build_item(log, it, app=None):
     """-> (kind, value) with kind 'yield' | 'raise'"""
     k = it[0]
     if k == 'e':
@@ -121,9 +121,9 @@ def build_item(log, it):
     if k in ('t', 'b'):
         return 'yield', it[1]
     if k == 'y':
-        return 'yield', build_out(log, it[1])
+        return 'yield', build_out(log, it[1], app)
     if k == 'rr':
-        return 'raise', build_out(log, it[1])
+        return 'raise', build_out(log, it[1], app)
     if k == 'ex':
         return 'raise', BoomError('item')
     if k == 'un':
@@ -144,20 +144,26 @@ def build_resp(log, is_err, rspec, body):
     return r
 
 
-def build_out(log, o):
+def build_out(log, o, app=None):
     k = o[0]
+    if k == 'sh':
+        # a module-level response object of the application: built once, answered many times
+        shared = app._zoo_shared
+        if o[1] not in shared:
+            shared[o[1]] = build_out(log, app._zoo_spec['shared'][o[1]], app)
+        return shared[o[1]]
     if k == 'f':
         v = FALSY[o[1]]
         return type(v)() if isinstance(v, (list, dict)) else v
     if k in ('t', 'b'):
         return o[1]
     if k == 'r':
-        return build_resp(log, o[1], o[2], build_out(log, o[3]))
+        return build_resp(log, o[1], o[2], build_out(log, o[3], app))
     if k == 'fl':
         return make_file(log, o[1], o[2], o[3], o[4])
     if k == 'it':
         _, oid, has_close, items, flavour = o
-        built = [build_item(log, i) for i in items]
+        built = [build_item(log, i, app) for i in items]
         if flavour == 'list':
             return [v for _, v in built]
         if flavour == 'tuple':
@@ -197,13 +203,13 @@ def run_effs(resp, effs):
             raise ValueError(e)
 
 
-def finish(log, res):
+def finish(log, res, app=None):
     if res[0] == 'ok':
         return None
     if res[0] == 'ret':
-        return build_out(log, res[1])
+        return build_out(log, res[1], app)
     if res[0] == 'rr':
-        raise build_out(log, res[1])
+        raise build_out(log, res[1], app)
     if res[0] == 'ex':
         raise BoomError('outcome')
     raise ValueError(res)
@@ -226,25 +232,55 @@ class ErrStream:
 
 def make_app(spec, log, body_hook=None):
     """a real Ombott() with the hooks / error handlers of `spec`; routes are added per request
-    kind by `install_route`"""
+    kind by `install_route`.  spec keys: before, after, errh; optional catchall (default True),
+    edits = {'before': {i: edit}, 'after': {j: edit}} with edit = ('rs',) | ('an',) | ('ro', k),
+    shared = {key: ('r', is_err, rspec, body)} (module-level response objects of the application)"""
     from ombott import Ombott
-    app = Ombott()
+    app = Ombott(dict(catchall=bool(spec.get('catchall', True))))
+    fns = {'before_request': [], 'after_request': []}
+    fresh = {'before_request': len(spec['before']), 'after_request': len(spec['after'])}
+    app._zoo_fns = fns
+    app._zoo_shared = {}
+    app._zoo_spec = spec
+
+    def do_edit(name, letter, idx, edit):
+        if not edit:
+            return
+        if edit[0] == 'rs':
+            app.remove_hook(name, fns[name][idx])
+        elif edit[0] == 'ro':
+            if edit[1] < len(fns[name]):
+                app.remove_hook(name, fns[name][edit[1]])
+        elif edit[0] == 'an':
+            k = fresh[name]
+            fresh[name] += 1
+
+            def added(k=k):
+                log.append(f'{letter}{k}')
+            fns[name].append(added)
+            app.add_hook(name, added)
+
+    edits = spec.get('edits') or {}
     for i, (effs, res) in enumerate(spec['before']):
         def bh(i=i, effs=effs, res=res):
             log.append(f'b{i}')
+            do_edit('before_request', 'b', i, (edits.get('before') or {}).get(i))
             run_effs(app.response, effs)
-            finish(log, res)
+            finish(log, res, app)
+        fns['before_request'].append(bh)
         app.add_hook('before_request', bh)
     for j, (effs, res) in enumerate(spec['after']):
         def ah(j=j, effs=effs, res=res):
             log.append(f'a{j}')
+            do_edit('after_request', 'a', j, (edits.get('after') or {}).get(j))
             run_effs(app.response, effs)
-            finish(log, res)
+            finish(log, res, app)
+        fns['after_request'].append(ah)
         app.add_hook('after_request', ah)
     for code, eh in spec['errh']:
         def errh(err, eh=eh):
             if eh[0] == 'c':
-                return build_out(log, eh[1])
+                return build_out(log, eh[1], app)
             if eh[0] == 'bd':
                 return err.body
             raise BoomError('errh')
@@ -256,6 +292,15 @@ def make_app(spec, log, body_hook=None):
         return orig(path, verb)
     app.to_route = to_route
     return app
+
+
+def hooks_now(app):
+    """registration numbers of the two hook lists, in list order"""
+    out = []
+    for name in ('before_request', 'after_request'):
+        fns = app._zoo_fns[name]
+        out.append([fns.index(f) for f in app._hooks[name]])
+    return out
 
 
 ALL_METHODS = ['GET', 'POST', 'PUT', 'DELETE', 'PATCH', 'OPTIONS', 'HEAD']
@@ -274,10 +319,10 @@ def install_route(app, log, req, cur):
                 try:
                     run_effs(app.response, effs)
                     if pre:
-                        said = pre(app)
+                        said = pre(app, kw)
                         if isinstance(said, str):
                             return said            # the handler answers with what it read
-                    return finish(log, res)
+                    return finish(log, res, app)
                 except Exception as e:
                     from ombott import HTTPResponse
                     if not isinstance(e, HTTPResponse) and hasattr(log, 'failed'):
@@ -285,6 +330,8 @@ def install_route(app, log, req, cur):
                     raise
             app.route('/x', method=ALL_METHODS, callback=handler)
             app.route('/x/<tail:path>', method=ALL_METHODS, callback=handler)
+            for flavour, rule in WILD_RULES.items():
+                app.route('/w/' + flavour + '/' + rule, method=ALL_METHODS, callback=handler)
             cur['routes'].add(key)
     elif route[0] == 'na':
         key = ('na', tuple(route[1]))
@@ -294,8 +341,15 @@ def install_route(app, log, req, cur):
             cur['routes'].add(key)
 
 
+# wildcard rules of every filter kind, all served by the zoo handler (req['wild'] = (flavour, value))
+WILD_RULES = {'s': '<v>', 'i': '<v:int>', 'f': '<v:float>', 'r': '<v:re:[a-z]+[0-9]*>', 'p': '<v:path>',
+              'x': '<v:rex:(?:q|z)([a-z0-9]+)>', 'c': ':v'}
+
+
 def path_of(req):
     route = req['route']
+    if req.get('wild') and route[0] == 'h':
+        return '/w/' + req['wild'][0] + '/' + req['wild'][1]
     if route[0] == 'h':
         base = '/x'
     elif route[0] == 'nf':
@@ -337,6 +391,87 @@ def url_repr(env, req, config=None):
     if req['path_ok']:
         e['PATH_INFO'] = e['PATH_INFO'].encode('latin1').decode('utf8')
     return repr(html.escape(Request(e, config=config).url))
+
+
+class CLWatch:
+    """records `HeaderDict.setdefault('Content-Length', v)` calls that insert the key"""
+
+    def __enter__(self):
+        from ombott.common_helpers import HeaderDict
+        self.cls = HeaderDict
+        self.orig = HeaderDict.setdefault
+        self.inserted = None
+        watch = self
+
+        def setdefault(hd, key, value):
+            if key == 'Content-Length' and key not in hd:
+                watch.inserted = value
+            return watch.orig(hd, key, value)
+        HeaderDict.setdefault = setdefault
+        return self
+
+    def __exit__(self, *a):
+        self.cls.setdefault = self.orig
+
+
+def serve_one(app, log, cur, req, body=b'', extra=None, pre=None, validate=False, env_cls=dict, input_cls=None,
+              keep=None):
+    """one request through the real application `app`; returns a dict of observations"""
+    import warnings
+    import weakref
+    from wsgiref.validate import validator
+    del log[:]
+    if hasattr(log, 'produced'):
+        log.produced, log.failed = set(), False
+    install_route(app, log, req, cur)
+    if req['route'][0] == 'h':
+        cur['prog'] = (req['route'][1], req['route'][2], pre)
+    env = env_cls(make_environ(req, log, body, extra))
+    if input_cls is not None:
+        env['wsgi.input'] = input_cls(body)
+    urlrepr = url_repr(env, req, app.config)
+    if keep is not None:
+        keep.append(weakref.ref(env))
+        keep.append(weakref.ref(env['wsgi.input']))
+    starts, complaints = [], []
+
+    def sr(status, headers, exc_info=None):
+        log.append('S')
+        starts.append((status, list(headers), exc_info is not None))
+        return lambda b: None
+
+    target = app
+    if validate:
+        def shim(environ, start_response):
+            def sr2(*a, **kw):
+                try:
+                    return start_response(*a, **kw)
+                except AssertionError as e:
+                    complaints.append('start_response: ' + str(e)[:160])
+                    log.append('S')      # what the application tried to emit
+                    starts.append((a[0], list(a[1]) if isinstance(a[1], list) else a[1], len(a) > 2 and a[2] is not None))
+                    raise
+            return app(environ, sr2)
+        target = validator(shim)
+    escaped = None
+    data, shape = b'', ''
+    with CLWatch() as w, warnings.catch_warnings():
+        warnings.simplefilter('ignore')
+        try:
+            result = target(env, sr)
+            try:
+                data, shape = consume(result, log)
+            except AssertionError as e:
+                complaints.append('iteration: ' + str(e)[:160])
+            del result
+        except AssertionError as e:
+            complaints.append('call: ' + str(e)[:160])
+        except Exception as e:     # an exception escaping the application
+            escaped = type(e).__name__
+    del env
+    return dict(log=list(log), starts=starts, data=data, shape=shape, cl=w.inserted, escaped=escaped,
+                complaints=complaints, urlrepr=urlrepr, hooks=hooks_now(app),
+                produced=set(getattr(log, 'produced', ())), failed=getattr(log, 'failed', False))
 
 
 def consume(result, log):
@@ -408,6 +543,8 @@ def ser_item(it):
 
 def ser_out(o):
     k = o[0]
+    if k == 'sh':
+        return ser_out(_SHARED[o[1]])      # the model sees the object's value
     if k == 'f':
         return ['f', o[1]]
     if k == 't':
@@ -453,13 +590,27 @@ def ser_res(res):
     return [res[0]] + ser_out(res[1])
 
 
+_SHARED = {}
+
+
+def ser_edit(e):
+    if not e:
+        return ['n']
+    return ['ro', str(e[1])] if e[0] == 'ro' else [e[0]]
+
+
 def ser_app(spec):
-    toks = [str(len(spec['before']))]
-    for effs, res in spec['before']:
-        toks += ser_effs(effs) + ser_res(res)
+    global _SHARED
+    _SHARED = spec.get('shared') or {}
+    edits = spec.get('edits') or {}
+    eb = {int(k): v for k, v in (edits.get('before') or {}).items()}
+    ea = {int(k): v for k, v in (edits.get('after') or {}).items()}
+    toks = [b01(spec.get('catchall', True)), str(len(spec['before']))]
+    for i, (effs, res) in enumerate(spec['before']):
+        toks += ser_effs(effs) + ser_edit(eb.get(i)) + ser_res(res)
     toks.append(str(len(spec['after'])))
-    for effs, res in spec['after']:
-        toks += ser_effs(effs) + ser_res(res)
+    for j, (effs, res) in enumerate(spec['after']):
+        toks += ser_effs(effs) + ser_edit(ea.get(j)) + ser_res(res)
     toks.append(str(len(spec['errh'])))
     for code, eh in spec['errh']:
         toks.append(str(code))
@@ -503,7 +654,7 @@ def _eff_may_fail(e):
 
 def _out_exc_free(o):
     k = o[0]
-    if k in ('f', 't', 'b', 'fl'):
+    if k in ('f', 't', 'b', 'fl', 'sh'):
         return True
     if k == 'r':
         return _out_exc_free(o[3])
@@ -556,6 +707,7 @@ class Gen:
         self.safe_headers = safe_headers      # oracle domain: no Content-Length etc. set by programs
         self.safe_names = ['X-A', 'X-B', 'ETag', 'x_y', 'Content-Type', 'Allow', 'Last-Modified']
         self.odd_status = odd_status
+        self.catchall_off = not safe_headers   # catchall=False only in the correspondence stream
 
     def nid(self):
         self.next_id += 1
@@ -713,6 +865,18 @@ class Gen:
                     after=[self.hook() for _ in range(rng.choice([0, 0, 1, 2, 3]))], errh=[])
         for code in rng.sample([404, 405, 500, 400, 418, 503], rng.choice([0, 0, 0, 1, 2])):
             spec['errh'].append((code, self.errh()))
+        if rng.random() < .3:
+            # hooks that change the list of the event being emitted
+            ed = {'before': {}, 'after': {}}
+            for side in ('before', 'after'):
+                n = len(spec[side])
+                for i in range(n):
+                    if rng.random() < .4:
+                        ed[side][i] = rng.choice([('rs',), ('rs',), ('an',), ('ro', rng.randrange(n)),
+                                                  ('ro', min(n - 1, i + 1))])
+            spec['edits'] = ed
+        if self.catchall_off and rng.random() < .15:
+            spec['catchall'] = False
         return spec
 
     def route(self):
